@@ -9,6 +9,7 @@ from inscripta.biocantor.gene.codon import TranslationTable
 from inscripta.biocantor.gene.collections import AnnotationCollection
 from inscripta.biocantor.gene.gene import GeneInterval
 from inscripta.biocantor.gene.transcript import TranscriptInterval
+from inscripta.biocantor.exc import BioCantorException
 from inscripta.biocantor.io.ncbi.tbl_writer import GenbankFlavor, TblGene, collection_to_tbl
 
 from harness.cdsmodel import START_CODONS, codon_strings, ref_codon_positions, ref_translate
@@ -169,13 +170,16 @@ def coding2_fn(strand, table):
                                     transcript_id="tx1", sequence_name="chr1", parent_or_seq_chunk_parent=par())
             gene = GeneInterval([tx], gene_id="gid", gene_symbol="sym", gene_type=Biotype.protein_coding, sequence_name="chr1",
                                 parent_or_seq_chunk_parent=par())
-            with warnings.catch_warnings():
-                warnings.simplefilter("ignore")
-                text = "\n".join(str(o) for o in TblGene(gene, "lab", "LT_5", TABLES[table]))
+            codons = ref_codon_positions([e[0] for e in ex], [l0, l1], strand, frames)
+            try:
+                with warnings.catch_warnings():
+                    warnings.simplefilter("ignore")
+                    text = "\n".join(str(o) for o in TblGene(gene, "lab", "LT_5", TABLES[table]))
+            except (ValueError, BioCantorException):
+                return not codons  # a CDS without a complete codon may be refused with a documented exception (as in C05/C19), nothing else may
             feats = read_tbl(text)
             if feats is None or [f[0] for f in feats] != ["gene", "mRNA", "CDS"]:
                 return False
-            codons = ref_codon_positions([e[0] for e in ex], [l0, l1], strand, frames)
             if not codons:
                 return True
             cstr = codon_strings(codons, GENOME, strand)
@@ -200,16 +204,17 @@ def coding_pre(es, el, co, cl, frame):
 
 
 def adjacent_cds_fn(strand):
-    """CDS given as two ADJACENT blocks (0-bp gap, a modelled frameshift): exported as one merged interval"""
+    """CDS given as two ADJACENT blocks (0-bp gap) with ARBITRARY annotated frames (consistent, or a modelled frameshift): exported as one merged
+    interval; pseudo flag, partial marks and codon_start describe the MERGED CDS that is written (one block, start frame of the 5' block)"""
 
-    def fn(cs, l0, l1):
-        cs, l0, l1 = concretize(cs, l0, l1)
+    def fn(cs, l0, l1, fa, fb):
+        cs, l0, l1, fa, fb = concretize(cs, l0, l1, fa, fb)
         with untraced():
             es, ee = 0, 48
-            tx = TranscriptInterval([es], [ee], strand, [cs, cs + l0], [cs + l0, cs + l0 + l1], [CDSFrame.ZERO, CDSFrame((l0 if strand is PLUS else l1) % 3)],
+            frames = [CDSFrame(fa), CDSFrame(fb)]
+            tx = TranscriptInterval([es], [ee], strand, [cs, cs + l0], [cs + l0, cs + l0 + l1], frames,
                                     transcript_id="tx1", sequence_name="chr1", parent_or_seq_chunk_parent=chrom_parent(GENOME))
-            tx2 = TranscriptInterval([es, 20], [20, ee], strand, [cs, cs + l0], [cs + l0, cs + l0 + l1],
-                                     [CDSFrame.ZERO, CDSFrame((l0 if strand is PLUS else l1) % 3)], transcript_id="tx2", sequence_name="chr1",
+            tx2 = TranscriptInterval([es, 20], [20, ee], strand, [cs, cs + l0], [cs + l0, cs + l0 + l1], frames, transcript_id="tx2", sequence_name="chr1",
                                      parent_or_seq_chunk_parent=chrom_parent(GENOME))
             gene = GeneInterval([tx, tx2], gene_id="gid", gene_symbol="sym", gene_type=Biotype.protein_coding, sequence_name="chr1",
                                 parent_or_seq_chunk_parent=chrom_parent(GENOME))
@@ -219,14 +224,28 @@ def adjacent_cds_fn(strand):
             feats = read_tbl(text)
             if feats is None or [f[0] for f in feats] != ["gene", "mRNA", "CDS", "mRNA", "CDS"]:
                 return False
+            f5 = fa if strand is PLUS else fb
+            n = l0 + l1
+            codons = ref_codon_positions([cs], [n], strand, [f5])
+            cstr = codon_strings(codons, GENOME, strand) if codons else []
+            pseudo = bool(cstr) and "*" in ref_translate(cstr, 0, False)[:-1]
+            five = (not cstr) or cstr[0] not in START_CODONS[0]
+            three = (not cstr) or ((n - f5) % 3 != 0) or cstr[-1] not in ("TAA", "TAG", "TGA")
             for f in feats:
                 if f[0] == "CDS":
                     iv = [(a.lstrip("<>"), b.lstrip("<>")) for a, b in f[1]]
                     if iv != [tuple(map(str, p)) for p in expected_intervals([(cs, cs + l0 + l1)], strand)]:
                         return False
+                    if cstr:
+                        if f[1][0][0].startswith("<") != five or f[1][-1][1].startswith(">") != three:
+                            return False
+                        if f[2].get("codon_start") != [str(f5 + 1)] or ("pseudo" in f[2]) != pseudo:
+                            return False
                 if f[0] == "mRNA":
                     if len(f[1]) not in (1,):
                         return False  # adjacent exons 0-20,20-48 are merged as well
+                if f[0] == "gene" and cstr and ("pseudo" in f[2]) != pseudo:
+                    return False
             return True
 
     return fn
@@ -313,15 +332,18 @@ def obligations(tier):
                                examples=[dict(es=0, el=11, co=2, cl=9, frame=0), dict(es=0, el=14, co=2, cl=10, frame=1)]))
         for table in ((11,) if quick else (0, 1, 11)):
             out.append(Obl("coding_two_exons_%s_table%d" % (sn, table), coding2_fn(strand, table), dict(es=int, l0=int, l1=int, f0=int),
-                           lambda es, l0, l1, f0: 0 <= es and es <= 2 and 4 <= l0 and l0 <= 9 and 4 <= l1 and l1 <= 9 and 0 <= f0 and f0 <= 2,
+                           (lambda plus: (lambda es, l0, l1, f0: 0 <= es and es <= 2 and 1 <= l0 and l0 <= 9 and 1 <= l1 and l1 <= 9 and 0 <= f0 and f0 <= 2 and (l0 if plus else l1) > f0))(strand is PLUS),
                            budget=340, cost=60,
                            desc="two-exon coding transcript (two non-adjacent CDS blocks, consistent frames): codon_start = START frame + 1 (frame of the 5' "
                                 "block, whichever strand), partial marks and pseudo per the reading-frame model, both blocks listed 5'->3'",
-                           bounds="48-nt genome, start 0..2, exon lengths 4..9 each, start frames 0..2 (realised)", examples=[dict(es=1, l0=4, l1=8, f0=0)]))
-        out.append(Obl("adjacent_cds_blocks_%s" % sn, adjacent_cds_fn(strand), dict(cs=int, l0=int, l1=int),
-                       lambda cs, l0, l1: 2 <= cs and cs <= 5 and 3 <= l0 and l0 <= 8 and 3 <= l1 and l1 <= 8, budget=300, cost=60,
-                       desc="a CDS given as adjacent blocks is exported as one merged interval (single- and multi-exon transcripts)",
-                       bounds="CDS start 2..5, block lengths 3..8 (realised)", examples=[dict(cs=2, l0=4, l1=5)]))
+                           bounds="48-nt genome, start 0..2, exon lengths 1..9 each (codons and stop codons split by the intron included), start frames 0..2 with the 5' exon longer than the start offset (realised)",
+                           examples=[dict(es=1, l0=4, l1=8, f0=0), dict(es=0, l0=8, l1=1, f0=0)]))
+        out.append(Obl("adjacent_cds_blocks_%s" % sn, adjacent_cds_fn(strand), dict(cs=int, l0=int, l1=int, fa=int, fb=int),
+                       lambda cs, l0, l1, fa, fb: 2 <= cs and cs <= 5 and 3 <= l0 and l0 <= 8 and 3 <= l1 and l1 <= 8 and 0 <= fa and fa <= 2 and 0 <= fb and fb <= 2,
+                       budget=400, cost=90,
+                       desc="a CDS given as adjacent blocks with arbitrary annotated frames (incl. modelled frameshifts) is exported as one merged interval (single- and "
+                            "multi-exon transcripts); pseudo / partial marks / codon_start are those of the merged CDS that is written",
+                       bounds="CDS start 2..5, block lengths 3..8, both block frames 0..2 (realised)", examples=[dict(cs=2, l0=4, l1=5, fa=0, fb=1), dict(cs=2, l0=4, l1=5, fa=0, fb=2)]))
     out.append(Obl("locus_tags_step", locus_tags_fn(), dict(jump=int, ngenes=int), lambda jump, ngenes: jump >= 1 and 1 <= ngenes and ngenes <= 2,
                    budget=300, cost=30, stubs=dict(tokens=True),
                    desc="locus tags over a file of two sequences: k-th gene gets prefix_(k*step) (unique, increasing by the requested step); one header per sequence",
